@@ -168,10 +168,21 @@ class Parser:
             n = None
             if self.eat(";"):
                 tok = self.peek()
-                if tok[0] != "int":
-                    raise Unsupported("array length at %s" % self.ctx())
-                n = tok[1]
-                self.i += 1
+                if tok[0] == "int" and self.isp("]", 1):
+                    n = tok[1]
+                    self.i += 1
+                else:
+                    # a length that is not a literal (`[u8; Self::serialized_size()]`): the array is a byte list
+                    depth = 0
+                    while not (depth == 0 and self.isp("]")):
+                        if self.peek()[0] == "eof":
+                            raise Unsupported("array length at %s" % self.ctx())
+                        if self.peek() in (("p", "("), ("p", "["), ("p", "<")):
+                            depth += 1
+                        elif self.peek() in (("p", ")"), ("p", "]"), ("p", ">")):
+                            depth -= 1
+                        self.i += 1
+                    n = None
             self.need("]")
             return ("array", t, n)
         name = self.ident()
@@ -205,7 +216,13 @@ class Parser:
         self.i += 1
         name = self.ident()
         if self.isp("<"):
-            raise Unsupported("generic function %s" % name)
+            self.i += 1
+            while not self.isp(">"):
+                if self.peek()[0] == "life" or self.isp(",") or self.isp(":") or self.isp("+"):
+                    self.i += 1
+                else:
+                    raise Unsupported("generic function %s" % name)
+            self.i += 1
         self.need("(")
         params = []
         selfkind = None
@@ -231,6 +248,14 @@ class Parser:
         ret = ("tuple", [])
         if self.eat("->"):
             ret = self.ty()
+        if self.isid("where"):
+            while not self.isp("{"):
+                tok = self.peek()
+                if tok[0] == "eof":
+                    raise Unsupported("where clause")
+                if tok[0] == "id" and tok[1] not in ("where", "Self") or tok[0] == "p" and tok[1] not in (":", ","):
+                    raise Unsupported("where clause that is not about lifetimes: %s" % self.ctx())
+                self.i += 1
         return name, selfkind, params, ret
 
     # -- blocks and statements
@@ -257,7 +282,16 @@ class Parser:
                 c = self.expr(nostruct=True)
                 stmts.append(("while", c, self.block()))
                 continue
-            if self.isid("for") or self.isid("loop"):
+            if self.isid("for"):
+                self.i += 1
+                pat = self.pattern()
+                if not self.isid("in"):
+                    raise Unsupported("for without in at %s" % self.ctx())
+                self.i += 1
+                it = self.expr(nostruct=True)
+                stmts.append(("for", pat, it, self.block()))
+                continue
+            if self.isid("loop") or self.isid("break") or self.isid("continue"):
                 raise Unsupported("loop statement `%s`" % self.ctx())
             if self.peek()[0] == "id" and self.peek()[1] in ASSERTS and self.isp("!", 1):
                 stmts.append(self.assertion())
@@ -284,6 +318,17 @@ class Parser:
         return ("block", stmts, tail)
 
     def pattern(self):
+        p = self.pattern1()
+        if self.isp("|"):
+            alts = [p]
+            while self.eat("|"):
+                alts.append(self.pattern1())
+            return ("por", alts)
+        return p
+
+    def pattern1(self):
+        if self.eat("&"):
+            return self.pattern1()
         if self.eat("("):
             items = []
             while not self.isp(")"):
@@ -313,7 +358,14 @@ class Parser:
             return ("psome", inner)
         if name == "None":
             return ("pnone",)
-        if self.isp("::") or self.isp("(") or self.isp("{"):
+        if self.isp("::"):
+            segs = [name]
+            while self.eat("::"):
+                segs.append(self.ident())
+            if self.isp("(") or self.isp("{"):
+                raise Unsupported("pattern %s(..) with a payload at %s" % ("::".join(segs), self.ctx()))
+            return ("ppath", segs)
+        if self.isp("(") or self.isp("{"):
             raise Unsupported("pattern %s... at %s" % (name, self.ctx()))
         return ("pvar", name)
 
@@ -395,6 +447,21 @@ class Parser:
             return ("borrow", self.unary(nostruct))
         return self.postfix(self.primary(nostruct), stmt)
 
+    def index_expr(self):
+        """inside `[..]`: an index, or a range a..b / a.. / ..b / a..=b / .. -> ("irange", lo, hi, inclusive)"""
+        for op in ("..=", ".."):
+            if self.isp(op):
+                self.i += 1
+                hi = None if self.isp("]") else self.binary(0, False)
+                return ("irange", None, hi, op == "..=")
+        lo = self.binary(0, False)
+        for op in ("..=", ".."):
+            if self.isp(op):
+                self.i += 1
+                hi = None if self.isp("]") else self.binary(0, False)
+                return ("irange", lo, hi, op == "..=")
+        return lo
+
     def args(self):
         self.need("(")
         out = []
@@ -424,9 +491,13 @@ class Parser:
                 else:
                     e = ("field", e, name)
             elif self.isp("?"):
-                raise Unsupported("`?` operator at %s" % self.ctx())
+                self.i += 1
+                e = ("try", e)
             elif self.isp("["):
-                raise Unsupported("indexing at %s" % self.ctx())
+                self.i += 1
+                idx = self.index_expr()
+                self.need("]")
+                e = ("index", e, idx)
             else:
                 return e
 
@@ -451,6 +522,28 @@ class Parser:
             return ("paren", e)
         if self.isp("{"):
             return self.block()
+        if self.isp("|"):
+            self.i += 1
+            pats = []
+            while not self.isp("|"):
+                pats.append(self.pattern1())
+                if self.eat(":"):
+                    self.ty()
+                if not self.eat(","):
+                    break
+            self.need("|")
+            return ("closure", pats, self.expr())
+        if self.isp("["):
+            self.i += 1
+            v = self.expr()
+            if not self.eat(";"):
+                raise Unsupported("array literal at %s" % self.ctx())
+            n = self.expr()
+            self.need("]")
+            return ("arrayrep", v, n)
+        if tok[0] == "str":
+            self.i += 1
+            return ("opaque", "string literal")
         if tok[0] != "id":
             raise Unsupported("expression at %s" % self.ctx())
         if tok[1] == "if":
@@ -501,6 +594,31 @@ class Parser:
                         raise Unsupported("unterminated format!")
                     self.i += 1
                 return ("opaque", "format!")
+            if segs == ["vec"] and self.isp("[", 1) and self.isp("]", 2):
+                self.i += 3
+                return ("call", ["Vec", "new"], None, [])
+            if segs == ["matches"]:
+                self.i += 1
+                self.need("(")
+                e = self.expr()
+                self.need(",")
+                pat = self.pattern()
+                self.eat(",")
+                self.need(")")
+                return ("matches", e, pat)
+            if segs == ["unreachable"]:
+                self.i += 1
+                self.need("(")
+                depth = 1
+                while depth:
+                    if self.isp("("):
+                        depth += 1
+                    elif self.isp(")"):
+                        depth -= 1
+                    elif self.peek()[0] == "eof":
+                        raise Unsupported("unterminated unreachable!")
+                    self.i += 1
+                return ("unreachable",)
             raise Unsupported("macro %s!" % "::".join(segs))
         if self.isp("("):
             return ("call", segs, generic, self.args())
